@@ -129,8 +129,9 @@ package server
 //@ func (*blobUpload).Run
 //@   requires len(b.Digest) >= 19
 // Run receives the commit URL from b.nextURL even when there are no parts: a nil channel
-// blocks forever (and the deferred blobUploadManager.Delete never runs)
-//@   requires b.nextURL != nil
+// blocks forever (and the deferred blobUploadManager.Delete never runs). A mounted blob
+// (b.done, no session) returns at once since fix fbe3f510e.
+//@   requires b.done || b.nextURL != nil
 //@   assume-at call GetBlobsPath #1 : ErrInvalidDigestFormat != nil   -- package-level errors.New value, assigned once at package init
 //@   ghost-at entry : ghost_waited := 0
 //@   ghost-at after call errgroup.(*Group).Wait #1 : ghost_waited := ite(result == nil, 1, 0)
